@@ -241,6 +241,8 @@ def base_store(S, spec):
               '/servers', '/traits', '/blackedout.apps']:
         b.seed(p, None, 1)
     b.nodes['/traits'][0] = list(spec.get('traits', []))
+    for name in spec.get('blackedout', []):
+        b.seed('/blackedout.servers/' + name, None, 2)
     b.nodes['/allocations'][0] = spec.get('allocations', [])
     b.nodes['/blackedout.apps'][0] = spec.get('apps_blacklist', [])
     for r in RACKS:
@@ -458,6 +460,27 @@ def apply_event(W, m, ev):
     elif kind == 'apps_blacklist':
         b.nodes['/blackedout.apps'][0] = list(ev[1])
         _post(W, m, 'apps_blacklist', None)
+    elif kind == 'app_resize':
+        # the manifest of a scheduled instance is rewritten with another size
+        # and an 'apps' event names it (Master._handle_apps_event -> load_app).
+        # W.demand keeps what the scheduler was told at admission.
+        i = ev[1]
+        man = dict(b.get('/scheduled/' + APPS[i]))
+        man['memory'] = S.int('resized_dem%d' % i, 0, W.spec.get('vmax', VMAX))
+        b.nodes['/scheduled/' + APPS[i]][0] = man
+        W.resized = getattr(W, 'resized', {})
+        W.resized[APPS[i]] = man['memory']
+        _post(W, m, 'apps', [APPS[i]])
+    elif kind == 'apps_event':
+        # an 'apps' event naming instances (some of which may be gone from
+        # /scheduled by the time it is handled)
+        _post(W, m, 'apps', [APPS[i] for i in ev[1]])
+    elif kind == 'unschedule_silently':
+        # the instance is unscheduled, the master has not seen the children
+        # watch of /scheduled yet
+        b.unseed('/scheduled/' + APPS[ev[1]])
+    elif kind == 'scheduled_watch':
+        m.process_scheduled(b.list('/scheduled'))
     elif kind == 'allocations':
         b.nodes['/allocations'][0] = ev[1]
         _post(W, m, 'allocations', None)
